@@ -220,5 +220,5 @@ def _mk_string(k):
     return _dec
 
 
-for _k in (0, 1, 2, 3):
+for _k in (0, 1, 2, 3, 4):          # len = 4: thorough tier only
     _mk_string(_k)
